@@ -132,6 +132,8 @@ class Abs:
             mine = [z3.Implies(arg != 0, r * arg == 1)]
         elif op == "exp":
             mine = [r > 0]
+        elif op == "abs":
+            mine = [r >= 0, r * r == arg * arg, z3.Or(r == arg, r == -arg)]
         elif op in ("cos", "sin"):
             other = self.lookup("sin" if op == "cos" else "cos", arg)
             if other is not None:
@@ -347,10 +349,11 @@ class Explorer:
             if not isinstance(v, bool):
                 raise Inconclusive("non-deterministic re-execution (decision kinds differ)")
         else:
-            lits = {z3.simplify(c).get_id() for c in self.assume + self.pc}
-            if z3.simplify(t).get_id() in lits:
+            keep = [z3.simplify(c) for c in self.assume + self.pc]  # keep the ASTs alive: ids are recycled after GC
+            ts, tn = z3.simplify(t), z3.simplify(z3.Not(t))
+            if any(ts.eq(c) for c in keep):
                 okT, okF = True, False
-            elif z3.simplify(z3.Not(t)).get_id() in lits:
+            elif any(tn.eq(c) for c in keep):
                 okT, okF = False, True
             else:
                 okT = self._feasible(t)
@@ -658,8 +661,7 @@ class SR:
     def __abs__(self):
         if self.c is not None:
             return SR(c=abs(self.c))
-        p = self.plain()
-        return SR(z3.If(p >= 0, p, -p))
+        return SR(ABS.app("abs", self.plain()))
 
     def __pow__(self, n):
         if isinstance(n, (float, np.floating)) and float(n) == 0.5:
